@@ -9,7 +9,10 @@
     [cp tid body estimate] for an ARBITRARY function [cp] (nothing is assumed about keccak).
     [recover c sg] is EthAddressFromSignature after hex decoding ([None] = undecodable / too short /
     no public key), also arbitrary.  Validators, chains and remote addresses are numbers.
-    [st_issued] is a ghost: every value the chain ever published as a stored batch's BytesToSign.
+    [st_issued] is a ghost: every value the chain ever PUBLISHED FOR SIGNING, through any channel:
+    stored as a batch's BytesToSign (build, re-estimate) or handed out by one of the batch queries
+    (LastPendingBatchRequestByAddr, OutgoingTxBatches, BatchRequestByNonce,
+    LastPendingBatchForGasEstimation -- where relayers read what to sign; [OQuery]).
 
     Which functions archive what they publish, and whether the evidence handler looks at the
     archive, comes from the translated source (Gen.C13), so the theorems are about the code as it
@@ -26,14 +29,20 @@ Record cfg := {
   c_build_archives : bool;      (* BuildOutgoingTXBatch calls SetPastEthSignatureCheckpoint on its checkpoint *)
   c_reissue_archives : bool;    (* UpdateBatchGasEstimate archives the checkpoint it stores as BytesToSign *)
   c_rejects_archived : bool;    (* evidence handler returns an error when the checkpoint is archived *)
-  c_set_once : bool             (* UpdateBatchGasEstimate refuses when GasEstimate > 0 *)
+  c_set_once : bool;            (* UpdateBatchGasEstimate refuses when GasEstimate > 0 *)
+  c_queries_stored : bool;      (* every batch query serves the stored record untouched (else: BytesToSign
+                                   recomputed for the deployment id in force at query time) *)
+  c_confirm_recomputes : bool   (* ConfirmBatch verifies against GetCheckpoint(id in force now), not the
+                                   stored BytesToSign *)
 }.
 
 Definition code_cfg : cfg := {|
   c_build_archives := Gen.C13.build_archives;
   c_reissue_archives := Gen.C13.reissue_archives;
   c_rejects_archived := Gen.C13.evidence_rejects_archived;
-  c_set_once := Gen.C13.estimate_set_once |}.
+  c_set_once := Gen.C13.estimate_set_once;
+  c_queries_stored := Gen.C13.queries_serve_stored;
+  c_confirm_recomputes := Gen.C13.confirm_verifies_recomputed |}.
 
 (** The estimate that GetCheckpoint packs: the dummy when GasEstimate = 0. *)
 Definition eff_est (e : Z) : Z := if e =? 0 then Gen.C13.dummy_gas_estimate else e.
@@ -96,7 +105,32 @@ Section Model.
   | OSetTid (chain tid : Z)              (* chain support added / compass (re)deployed *)
   | OSetReg (reg : list (Z * val * addr))(* validators change their external chain infos *)
   | OUnjail (v : val)
-  | OEvidence (chain body est : Z) (sg : Sig).  (* MsgSubmitBadSignatureEvidence, by anyone *)
+  | OEvidence (chain body est : Z) (sg : Sig)   (* MsgSubmitBadSignatureEvidence, by anyone *)
+  | OQuery (key : Z).                    (* a relayer reads batch [key] through one of the batch queries *)
+
+  (** The checkpoint of a stored batch under the deployment id in force NOW (what ConfirmBatch
+      computes; [None]: chain unknown). *)
+  Definition current_cp (s : state) (b : batch) : option Z :=
+    match chain_tid (st_chains s) (b_chain b) with
+    | Some tid => Some (cp tid (b_body b) (eff_est (b_est b)))
+    | None => None
+    end.
+
+  (** What a batch query shows as BytesToSign for the stored batch [b]. *)
+  Definition served (s : state) (b : batch) : Z :=
+    if c_queries_stored g then b_bts b
+    else match current_cp s b with Some c => c | None => b_bts b end.
+
+  Definition served_bts (s : state) (key : Z) : option Z :=
+    match find_batch (st_batches s) key with Some b => Some (served s b) | None => None end.
+
+  (** MsgConfirmBatch: does the signature check run against [c]?  (The other conditions --
+      orchestrator, duplicate -- are not about the checkpoint.) *)
+  Definition confirm_checks_against (s : state) (key : Z) : option Z :=
+    match find_batch (st_batches s) key with
+    | None => None
+    | Some b => if c_confirm_recomputes g then current_cp s b else Some (b_bts b)
+    end.
 
   Definition with_batches (s : state) (bs : list batch) (arch iss : list Z) : state :=
     {| st_chains := st_chains s; st_batches := bs; st_archive := arch; st_issued := iss;
@@ -162,6 +196,11 @@ Section Model.
                | Some v => if memz v (st_jailed s) then (s, ROk) else (with_jailed s (v :: st_jailed s), ROk)
                end
              end
+      end
+    | OQuery key =>
+      match find_batch (st_batches s) key with
+      | None => (s, RErrNotFound)
+      | Some b => (with_batches s (st_batches s) (st_archive s) (served s b :: st_issued s), ROk)
       end
     end.
 
